@@ -176,6 +176,12 @@ func (s *State) truth(c *Term) int {
 			if r < 0 {
 				r = s.ltByLinear(c.Args[0], c.Args[1])
 			}
+			// nothing is below zero among lengths and unsigned values
+			if r < 0 {
+				if z, ok := termInt(c.Args[1]); ok && z == 0 && (c.Args[0].Op == "len" || isUnsignedTerm(c.Args[0])) {
+					r = 0
+				}
+			}
 			// 0 < x for a length or unsigned x known to differ from 0
 			if r < 0 {
 				if z, ok := termInt(c.Args[0]); ok && z == 0 && (c.Args[1].Op == "len" || isUnsignedTerm(c.Args[1])) {
